@@ -534,6 +534,8 @@ impl<'a> Exec<'a> {
                 // "every position" is every position up to a few thousand characters; beyond
                 // that (a payload carrying a scanned document) a seeded sample of that many
                 let sample = match sample {
+                    // megabyte-sized parts: every evaluation moves megabytes
+                    _ if n > 300_000 => &Some(150),
                     None if n > 3000 => &Some(3000),
                     s => s,
                 };
@@ -674,7 +676,14 @@ impl<'a> Exec<'a> {
                     let mut c = plain.clone();
                     c.wire.push(WireFault::Truncate(k));
                     out.push(c);
-                    k += if n / stride > 4000 && k >= 2000 * stride { (n / 2000).max(stride) } else { stride };
+                    k += if n > 300_000 {
+                        // megabyte-sized messages: 300 cuts in all
+                        (n / 300).max(stride)
+                    } else if n / stride > 4000 && k >= 2000 * stride {
+                        (n / 2000).max(stride)
+                    } else {
+                        stride
+                    };
                 }
             }
             Expand::PayloadFlipEvery { key, alg, stride } => {
